@@ -1,6 +1,7 @@
 package props
 
 import (
+	"math"
 	"bytes"
 	"context"
 	"errors"
@@ -256,6 +257,10 @@ func genHistory(c *core.Ctx, i int, maxLen int) *history {
 	if b.n < 0 {
 		b = bsc{0, "zero"}
 	}
+	if !c09noAstro && i%64 == 17 {
+		// the block size is a threshold, not an amount of memory: "never cut a block for me, I call Flush"
+		b = []bsc{{math.MaxInt, "astronomical"}, {math.MaxInt / 2, "astronomical"}, {1 << 50, "astronomical"}, {1 << 40, "astronomical"}, {1 << 36, "astronomical"}}[(i/64)%5]
+	}
 	h.bs, h.bsCls = b.n, b.cls
 	n := 1 + r.IntN(maxLen)
 	if r.IntN(4) == 0 {
@@ -357,6 +362,8 @@ func (h *history) rep(out []byte) map[string]any {
 	return m
 }
 
+var c09noAstro bool
+
 func runC09(c *core.Ctx, i int) {
 	h := genHistory(c, i, 200)
 	if h == nil {
@@ -364,7 +371,16 @@ func runC09(c *core.Ctx, i int) {
 	}
 	c.Journal(c.CurCase(), h.desc)
 	w := &recordingWriter{}
-	sess, err := h.sc.NewSession(w, h.comp, h.bs)
+	var sess lib.Session
+	var err error
+	if pan := func() (p any) {
+		defer func() { p = recover() }()
+		sess, err = h.sc.NewSession(w, h.comp, h.bs)
+		return nil
+	}(); pan != nil {
+		c.Violate("error", fmt.Sprintf("NewEncoderFor panicked: %v [%s]", pan, h.desc), h.rep(nil))
+		return
+	}
 	c.Eval(1)
 	if err != nil {
 		c.Violate("error", fmt.Sprintf("NewEncoderFor failed: %v [%s]", err, h.desc), h.rep(nil))
